@@ -63,6 +63,9 @@ def generate(prop, rng):
                                       (2, "snap_index"), (2, "update_check"), (1, "nonlocal"), (2, "hash_file_legacy")])
             q = {"op": o, "kind": kind, "file": rng.randrange(nfiles), "with_info": rng.random() < 0.5,
                  "subset": rng.random(), "persist": rng.random() < 0.4}
+            if kind == "hash_file" and not big and rng.random() < 0.3:
+                # the user rewrites the file after it was read and before its hash is recorded
+                q["late_write"] = {"same_len": rng.random() < 0.5}
             if kind in ("build_dry", "build_entries") and not big and rng.random() < 0.35:
                 # the user rewrites a file WHILE the directory is being hashed
                 q["mid"] = {"file": rng.randrange(nfiles), "after_reads": rng.randint(1, 4), "same_len": rng.random() < 0.5}
@@ -393,9 +396,41 @@ def execute(sc, ctx):
             if cur.get(i) is None:
                 continue
             info = fs.info(p) if op["with_info"] else None
-            meta, hi = hash_file(p, fs, "md5", state=state, info=info)
-            judge(i, hi.name, hi.value, "hash_file")
+            late = []
+            t_before, old_bytes = token(p), cur[i]
+            if op.get("late_write"):
+                real_save = state.save
+
+                def save_hook(path_, fs_, hi_, info=None, _i=i):
+                    if path_ == p and not late:
+                        # between the end of hashing and the recording of the hash: a visible rewrite
+                        ctx.clock.advance(10**9)
+                        write(_i, fresh(9, len(cur[_i]) if op["late_write"]["same_len"] else None),
+                              "same_len" if op["late_write"]["same_len"] else "diff_len")
+                        late.append(_i)
+                        ctx.probe("file_rewritten_between_hashing_and_recording")
+                    return real_save(path_, fs_, hi_, info=info)
+
+                state.save = save_hook
+            try:
+                meta, hi = hash_file(p, fs, "md5", state=state, info=info)
+            finally:
+                if op.get("late_write"):
+                    del state.save
+            if not late:
+                judge(i, hi.name, hi.value, "hash_file")
+            else:
+                # the answer of THIS call describes the bytes it read; what it recorded must not vouch
+                # for them under the file's new (inode, mtime, size): the model row says "current bytes"
+                # and any later hit is judged against it
+                versions.pop(i, None)
+                row.pop(p, None)
             note_saved([i])
+            if late and token(p) == t_before:
+                # the clock had stepped back and the lengths coincide: (inode, mtime, size) did not change,
+                # an invisible mutation by the statement's own wording - the row may vouch for either content
+                row[p] = (t_before, [old_bytes, cur[i]])
+                ctx.probe("late_write_invisible")
         elif kind == "hash_file_legacy":
             if cur.get(i) is None:
                 continue
